@@ -150,6 +150,7 @@ class ReleaseFilter(Flow):
         self.dep_iters = []  # iterables used for the dependency loop
         self.depvars = set()
         self.tvars = set()
+        self.others_idle = False
 
     # -- state helpers
     @staticmethod
@@ -296,6 +297,8 @@ class ReleaseFilter(Flow):
             return (st,)
         meth = f.attr
         recv = f.value
+        if meth in ('append', 'add') and isinstance(recv, ast.Name) and call.args and self.sym(st, call.args[0]) == 'J':
+            return (self.add(st, 'batched'),)
         # mutation of a tracked local set
         if isinstance(recv, ast.Name) and any(x[0] == 'set' and x[1] == recv.id for x in st):
             name = recv.id
@@ -434,7 +437,7 @@ class ReleaseFilter(Flow):
                 if {a, b} == {'tau', 'ALL'}:
                     val = self.rho['tau_is_all']
                 elif 'other-target' in (a, b) and 'ALL' in (a, b):
-                    val = None
+                    val = False if self.others_idle else None
                 if val is None:
                     return None
                 return val if isinstance(op, (ast.Eq, ast.Is)) else not val
@@ -452,6 +455,12 @@ class ReleaseFilter(Flow):
                         val = self.rho['all_in_dep_todo'] if ref[1] == 'todo' else (self.rho['all_in_dep_doing'] if ref[1] == 'doing' else None)
                 elif el == 'ALL' and ref is not None and owner == 'J' and self.rho['tau_is_all']:
                     val = self.member(st, r)
+                elif self.others_idle and ref is not None and owner == 'other-dep' and el in ('tau', 'ALL', 'other-target'):
+                    val = False  # converse direction: every other queued ancestor is idle for every target
+                elif self.others_idle and ref is not None and owner == 'D' and el == 'other-target':
+                    val = False
+                if val is None and self.others_idle and ref is not None and owner == 'other-dep':
+                    val = False
                 if val is None:
                     return None
                 return val if isinstance(op, ast.In) else not val
@@ -464,7 +473,7 @@ class ReleaseFilter(Flow):
         return None
 
 
-def release_analysis(prog: Program, f: Func, atoms=ATOMS):
+def release_analysis(prog: Program, f: Func, atoms=ATOMS, others_idle=False, no_ancestor=False):
     """run the truth table; returns dict with per-assignment outcome
 
     outcome[rho] = {'released': set(kinds), 'untodo': bool, 'paths': n, 'problems': [...]}
@@ -501,6 +510,10 @@ def release_analysis(prog: Program, f: Func, atoms=ATOMS):
         ):
             continue
         fl = ReleaseFilter(prog, f, jvar, rho, target_loop)
+        fl.others_idle = others_idle
+        if no_ancestor:
+            _orig = fl.on_for
+            fl.on_for = lambda node, st, _o=_orig, _f=fl: () if _f._is_dep_iter(node.iter, st) else _o(node, st)
         problems = []
         try:
             out = fl.block(outer.body, {frozenset()})
@@ -510,7 +523,7 @@ def release_analysis(prog: Program, f: Func, atoms=ATOMS):
             finals = set()
         visited += fl.visited
         dep_iters.extend(fl.dep_iters)
-        sel = [st for st in finals if ('visitDT',) in st]
+        sel = [st for st in finals if ('visitDT',) in st] if not no_ancestor else list(finals)
         results[bits] = {
             'rho': rho,
             'finals': sel,
